@@ -105,8 +105,11 @@ Class(t) == IF AllIn(t, Digits) THEN "int"
 \* parameter points: timespan, shift, lookup keys (texts of class "str"), raise_stopped
 PT(ix, nm, ts, sh, lk, rs) == [idx |-> ix, name |-> nm, ts |-> ts, shift |-> sh, lk |-> lk, rs |-> rs]
 ParamTable == { PT(0, "plain", 1, 0, {}, FALSE),
-                PT(1, "strict", 1, 0, {<<"a">>, <<".">>}, TRUE),
-                PT(2, "lookup", 2, 5, {<<"a">>, <<"a", "a">>, <<"a", ".">>, <<".">>}, FALSE),
+                \* the lookup may mention the terminal characters as keys: '|' and '#' in the diagram are
+                \* terminals because of the CHARACTER, they are not elements and are never looked up
+                \* (and a value that the lookup maps TO the string "|" or "#" - a codec profile - stays a value)
+                PT(1, "strict", 1, 0, {<<"a">>, <<".">>, <<"|">>}, TRUE),
+                PT(2, "lookup", 2, 5, {<<"a">>, <<"a", "a">>, <<"a", ".">>, <<".">>, <<"|">>, <<"#">>}, FALSE),
                 PT(3, "scaled", 3, 2, {<<"a">>}, TRUE) }
 Selected == IF AllParams THEN ParamTable
             ELSE LET i == (Len(str) + Len(Flushed)) % 4 IN
